@@ -81,12 +81,15 @@ func c20Queries(x *engine.Exec, ref *pendRef) []engine.Failure {
 		}
 		return cause
 	}
+	gone := map[int]bool{} // not in x/staking any more and no alliance record points at it: "not found" is an exact answer
 	for v := range w.Vals {
 		if _, err := w.App.StakingKeeper.GetValidator(ctx, w.Vals[v]); err != nil {
+			gone[v] = true
 			for _, p := range s.Pos {
 				if p.V == v {
 					removed[v] = true
 					delOnRemoved[p.D] = true
+					gone[v] = false
 				}
 			}
 			x.Cnt.Inc("state.validator_removed_from_staking")
@@ -278,7 +281,9 @@ func c20Queries(x *engine.Exec, ref *pendRef) []engine.Failure {
 			}
 			res, err := qs.AlliancesDelegationByValidator(ctx, &types.QueryAlliancesDelegationByValidatorRequest{DelegatorAddr: w.Dels[d].String(), ValidatorAddr: w.Vals[v].String()})
 			if err != nil {
-				add(fail("delegations-by-validator", rc("error", removed[v]), "(d%d,v%d): %v", d, v, err))
+				if !(gone[v] && len(want) == 0) {
+					add(fail("delegations-by-validator", rc("error", removed[v]), "(d%d,v%d): %v", d, v, err))
+				}
 			} else {
 				var got []string
 				for _, dr := range res.Delegations {
@@ -293,7 +298,9 @@ func c20Queries(x *engine.Exec, ref *pendRef) []engine.Failure {
 				res, err := qs.AllianceDelegation(ctx, &types.QueryAllianceDelegationRequest{DelegatorAddr: w.Dels[d].String(), ValidatorAddr: w.Vals[v].String(), Denom: den})
 				x.Cnt.Inc("query.delegation")
 				if err != nil {
-					add(fail("delegation", rc("error", removed[v]), "AllianceDelegation(d%d,v%d,%s): %v", d, v, den, err))
+					if !(gone[v] && !has) {
+						add(fail("delegation", rc("error", removed[v]), "AllianceDelegation(d%d,v%d,%s): %v", d, v, den, err))
+					}
 					continue
 				}
 				bal := res.Delegation.Balance.Amount
@@ -553,10 +560,12 @@ func init() {
 					Required: []string{"query.unbondings.nonempty", "state.validator_removed_from_staking", "state.pending_unbonding_from_removed_validator"},
 				}
 			}
+			unionFull := unionFullScenario("C20", "c20-union-full-pipeline", tier, c20Step, func(w *world.World, root *engine.Node) engine.Ref { return newPendRef() }, tierPick(tier, 3, 5))
+			unionFull.Required = []string{"query.unbondings.nonempty", "probe.undelegate_balance"}
 			if tier == "thorough" {
-				return []*engine.Scenario{removed([]int{3, 0, 1, 5, 0}, 9), mk("c20-queries", []int{4, 1, 1, 2, 0}, 7)}
+				return []*engine.Scenario{unionFull, removed([]int{3, 0, 1, 5, 0}, 9), mk("c20-queries", []int{4, 1, 1, 2, 0}, 7)}
 			}
-			return []*engine.Scenario{removed([]int{2, 0, 1, 4, 0}, 7), mk("c20-queries", []int{3, 1, 1, 2, 0}, 4)}
+			return []*engine.Scenario{unionFull, removed([]int{2, 0, 1, 4, 0}, 7), mk("c20-queries", []int{3, 1, 1, 2, 0}, 4)}
 		},
 		Assumptions: []string{
 			"reference enumeration: the list-based model of pending unbondings/redelegations (the one C02/C07/C15 validate against the store) and a raw decode of the delegation records",
